@@ -2,7 +2,7 @@
    every table, every delimiter set and both validation levels (Proofs/NoDrop.v):
    an accepted segment line yields exactly one Field per non-blank field repetition of the text,
    in text order, and the non-blank leaf texts held by the tree are exactly the non-blank leaf texts
-   of the line, in the same order; child admission appends the children it is given unchanged.
+   of the line, in the same order; child acceptance appends the children it is given unchanged.
    NOT proved here (decided by the correspondence run and the oracle of harness/c03.py): that the
    ENCODER emits every held leaf (Model/Encode.v places children by name), and the message level
    (segment sequence, group finding), which needs Model/Message.v. *)
@@ -39,10 +39,10 @@ Theorem C03_component_keeps_leaves : forall t lvl e leaf text name dt reference 
 Proof. exact parse_component_leaves. Qed.
 Print Assumptions C03_component_keeps_leaves.
 
-Theorem C03_admission_appends_fields : forall t lvl kids s s',
+Theorem C03_acceptance_appends_fields : forall t lvl kids s s',
   add_fields t lvl s kids = Ok s' -> s_children s' = s_children s ++ kids.
 Proof. intros t lvl kids s s' H. exact (proj1 (add_fields_appends t lvl kids s s' H)). Qed.
-Print Assumptions C03_admission_appends_fields.
+Print Assumptions C03_acceptance_appends_fields.
 
 (* non-vacuity: a v2.5 line with a surplus field, a repeated field, extra components *)
 Definition ex_line : str := "PID|1||A^B^^C&D~E||Doe^John|||||||||||||||||||||||||||||||||||beyond|more^x".
